@@ -38,6 +38,18 @@ func (l *Log) Has(prefix string) bool {
 	}
 	return false
 }
+// Count returns the number of recorded lines that start with the prefix.
+func (l *Log) Count(prefix string) int {
+	l.mu.Lock()
+	defer l.mu.Unlock()
+	n := 0
+	for _, s := range l.l {
+		if len(s) >= len(prefix) && s[:len(prefix)] == prefix {
+			n++
+		}
+	}
+	return n
+}
 func (l *Log) Len() int {
 	l.mu.Lock()
 	defer l.mu.Unlock()
